@@ -65,6 +65,13 @@ Cmds == IF Alphabet = "writes" THEN {c \in Puts : ~c.prev} \cup {c \in Dels : ~c
 PreWrites == {c \in Puts : ~c.prev} \cup {c \in Dels : ~c.prev /\ ~c.count /\ c.end \in {NoEnd, Wild}}
 
 LIs == {NoLI, 0, 5}
+\* a SEQUENCE as a replication worker builds it: every command carries its leader index (sli = index + 1)
+RepParts(a, b) == <<[t |-> "PUT", k |-> AllKeys[1], v |-> <<1>>, prev |-> TRUE, sli |-> a + 1],
+                    [t |-> "TXN", cmp |-> <<[k |-> AllKeys[1], end |-> NoEnd, res |-> "EQUAL", hasVal |-> TRUE, val |-> <<1>>]>>,
+                        succ |-> <<[t |-> "put", k |-> AllKeys[2], v |-> <<1>>, prev |-> TRUE]>>,
+                        fail |-> <<Marker>>, sli |-> b + 1]>>
+RepSeqs == {[t |-> "SEQ", cmds |-> RepParts(3, 6)], [t |-> "SEQ", cmds |-> RepParts(5, 6)],
+            [t |-> "SEQ", cmds |-> <<[t |-> "SEQ", cmds |-> RepParts(3, 6), sli |-> 7]>>]}
 Batches(idx) ==
   {<<[i |-> idx + 1, c |-> c, li |-> NoLI]>> : c \in Cmds}
   \cup (IF Pairs THEN {<<[i |-> idx + 1, c |-> w, li |-> NoLI], [i |-> idx + 2, c |-> c, li |-> NoLI]>> : w \in PreWrites, c \in Cmds} ELSE {})
@@ -72,6 +79,10 @@ Batches(idx) ==
   \cup {<<[i |-> idx + 1, c |-> [t |-> "DUMMY"], li |-> a], [i |-> idx + 3, c |-> [t |-> "PUT", k |-> AllKeys[1], v |-> <<1>>, prev |-> FALSE], li |-> b]>> :
           a \in LIs, b \in LIs}
   \cup {<<[i |-> idx + 1, c |-> [t |-> "DUMMY"], li |-> a]>> : a \in LIs}
+  \* replicated sequences on top of every recorded leader index, alone and after an entry of the same batch that sets one (C05)
+  \cup (IF Alphabet = "writes" THEN {} ELSE
+          {<<[i |-> idx + 1, c |-> s, li |-> o]>> : s \in RepSeqs, o \in {NoLI, 2, 6}}
+          \cup {<<[i |-> idx + 1, c |-> [t |-> "DUMMY"], li |-> a], [i |-> idx + 2, c |-> s, li |-> o]>> : a \in LIs, s \in RepSeqs, o \in {NoLI, 2, 6}})
 
 ReadOps == {[t |-> "range", k |-> k, end |-> e, limit |-> l, keysOnly |-> f = 1, countOnly |-> f = 2] :
               k \in Keys \cup {<<97, 255>>}, e \in UNION {TopEnds(x) : x \in Keys} \ {<<>>}, l \in 0..3, f \in {0, 1, 2}}
